@@ -73,6 +73,14 @@ def encode_case(c):
         return "TAB " + enc_str(c["text"])
     if k == "isvar":
         return "ISVAR %s %d" % (enc_str(c["name"]), int(c.get("sys", True)))
+    if k == "opts":
+        y = c.get("project")
+        if y is None:
+            return "OPTS %s 0" % enc_opts(c["global"])
+        parts = []
+        for key in ("stack_limit", "include_comments", "flipper_commands", "supress_command_not_exist", "use_project_config"):
+            parts.append("1 %d" % int(y[key]) if key in y else "0")
+        return "OPTS %s 1 %s" % (enc_opts(c["global"]), " ".join(parts))
     raise ValueError(k)
 
 
@@ -264,6 +272,32 @@ def run_impl_case(c, timeout=20.0):
             return {"status": "OK", "tree": tr(tree)}
         if k == "isvar":
             return {"status": "OK", "value": I["VariableEnvironment"].is_var(c["name"], c.get("sys", True))}
+        if k == "opts":
+            import yaml
+            from ducklingscript.compiler.environments.project_environment import ProjectEnvironment
+            from pathlib import Path
+            root = "/tmp/dsv/opts_%d" % os.getpid()
+            scratch = root
+            shutil.rmtree(root, ignore_errors=True)
+            os.makedirs(root)
+            if c.get("project") is not None:
+                with open(os.path.join(root, "config.yaml"), "w") as f:
+                    yaml.dump(c["project"], f)
+            before = open(os.path.join(root, "config.yaml")).read() if c.get("project") is not None else None
+            g = ds.CompileOptions(**dict(DEFAULT_OPTS, **c["global"]))
+            pe = ProjectEnvironment(root_dir=Path(root), compile_options=g)
+            o = pe.compile_options
+
+            def lst(o):
+                return [o.stack_limit, o.include_comments, o.flipper_commands, o.supress_command_not_exist, o.use_project_config]
+            after = open(os.path.join(root, "config.yaml")).read() if c.get("project") is not None else None
+            rew = None
+            if after is not None and after != before:
+                rew = lst(ds.CompileOptions(**(yaml.safe_load(after) or {})))
+            elif after is not None:
+                # unchanged text: the file was either not rewritten or rewritten identically
+                rew = "same-text"
+            return {"status": "OK", "effective": lst(o), "rewritten": rew, "after_options": None if after is None else lst(ds.CompileOptions(**(yaml.safe_load(after) or {})))}
         raise ValueError(k)
     except CaseTimeout:
         return {"status": "TIMEOUT"}
@@ -298,6 +332,12 @@ def compare(case, m, i, fields=None):
     def want(f):
         return fields is None or f in fields
     if m["status"] == "OK":
+        if "effective" in m:
+            if m["effective"] != i.get("effective"):
+                return "effective options differ: model %s impl %s" % (m["effective"], i.get("effective"))
+            if m["rewritten"] is not None and i.get("after_options") != m["rewritten"]:
+                return "rewritten config.yaml denotes %s, model %s" % (i.get("after_options"), m["rewritten"])
+            return None
         for f in ("value", "tree", "out", "prints", "vars", "sysvars", "funcs"):
             if f in m and want(f):
                 a, b = m.get(f), i.get(f)
